@@ -1,4 +1,5 @@
 import Np.Proofs.Dispatch
+import Np.Proofs.ConstFns
 import Np.Model.Patterns
 import Np.Proofs.ConstPatterns
 import Np.Model.Signatures
@@ -148,4 +149,48 @@ theorem signatures_cover : 80 ≤ (Np.Generated.signatures.filter fun e => e.np.
 /-- non-vacuity: numpy.negative on the constant [2, -1] stored with a retained zero column -/
 example : (unaryDispatch false true (fun x : Int => -x)
     ({ names := [0], terms := [([0], 2), ([3], 0)] } : Poly Int)).terms = [([0], -2)] := by decide
+/-! ### numpy's semantics on integer / rational value arrays inside the model (`Np/Model/ConstFns.lean`; the run
+compares the model's values with numpy's on a grid) -/
+section constfns
+open Np.Shape Np.ReduceFns Np.ConstFns
+
+/-- `argmax` returns the FIRST index of a maximal entry (likewise `argmin`) -/
+theorem argmax_first_occurrence {xs : List Int} {i : Nat} (h : argmaxFlat xs = some i) : IsArgmax xs i :=
+  argmaxFlat_spec h
+theorem argmin_first_occurrence {xs : List Int} {i : Nat} (h : argminFlat xs = some i) : IsArgmin xs i :=
+  argminFlat_spec h
+
+/-- … along an axis: for every output multi-index the first maximal position along the axis -/
+theorem argmax_axis (a b : List Nat) {n : Nat} (hn : 0 < n) (xs : List Int) :
+    ∃ I, argmaxAxis (a ++ n :: b) xs a.length = some (a ++ b, I) ∧ I.length = size (a ++ b) ∧
+      ∀ x y, InR x a → InR y b → ∃ i, I[ravel (a ++ b) (x ++ y)]? = some i ∧ i < n ∧
+        (∀ t < n, xs.getD (ravel (a ++ n :: b) (x ++ t :: y)) 0 ≤ xs.getD (ravel (a ++ n :: b) (x ++ i :: y)) 0) ∧
+        ∀ t < i, xs.getD (ravel (a ++ n :: b) (x ++ t :: y)) 0 < xs.getD (ravel (a ++ n :: b) (x ++ i :: y)) 0 :=
+  argmaxAxis_spec a b hn xs
+
+/-- `floor_divide` / `remainder` on integers: `a = b·q + r` with the remainder carrying the sign of the divisor -/
+theorem floor_divide_remainder (a b : Int) (hb : b ≠ 0) :
+    a = b * floorDiv a b + pyMod a b ∧ ((0 ≤ pyMod a b ∧ pyMod a b < b) ∨ (b < pyMod a b ∧ pyMod a b ≤ 0)) :=
+  floorDiv_spec a b hb
+
+/-- `rint` rounds to the nearest integer, ties to even -/
+theorem rint_half_to_even (q : Int × Nat) (hd : 0 < q.2) :
+    -(q.2 : Int) ≤ 2 * q.1 - 2 * (rintQ q * (q.2 : Int)) ∧ 2 * q.1 - 2 * (rintQ q * (q.2 : Int)) ≤ (q.2 : Int) ∧
+    ((2 * q.1 - 2 * (rintQ q * (q.2 : Int))).natAbs = q.2 → rintQ q % 2 = 0) := rintQ_spec q hd
+
+/-- `isclose(a, b)` is `|a − b| ≤ atol + rtol·|b|` — relative to the SECOND operand -/
+theorem isclose_is_relative_to_b (a b rtol atol : Int × Nat) (ha : 0 < a.2) (hb : 0 < b.2) (hr : 0 < rtol.2)
+    (ht : 0 < atol.2) :
+    iscloseQ a b rtol atol = true ↔ |toQ a - toQ b| ≤ toQ atol + toQ rtol * |toQ b| := iscloseQ_iff a b rtol atol ha hb hr ht
+
+/-- `nonzero` lists exactly the multi-indices of the non-zero entries, in C order -/
+theorem nonzero_lists_nonzeros (shape : List Nat) (xs : List Int) (hxs : xs.length = size shape) :
+    (nonzeroF shape xs).length = shape.length ∧
+    (∀ idx ∈ nonzeroIdx shape xs, InR idx shape) ∧
+    (nonzeroIdx shape xs).Pairwise (fun i j => ravel shape i < ravel shape j) ∧
+    ∀ idx, InR idx shape → (idx ∈ nonzeroIdx shape xs ↔ xs.getD (ravel shape idx) 0 ≠ 0) := by
+  obtain ⟨h1, -, -, h4, h5, h6⟩ := nonzeroF_spec shape xs hxs
+  exact ⟨h1, h4, h5, h6⟩
+end constfns
+
 end Np.Props.C11
